@@ -300,6 +300,152 @@ class CombineStream(Stream):
         if io.startswith("(err"):
             acc["raised"] = acc.get("raised", 0) + 1
 
+
+class FieldsStream(Stream):
+    """the dataclass fields of a node (name, what the DECLARED type says it holds, the expressions
+    in it) as the real object has them vs. as the model reads the wire format — the reading the
+    table-driven traversal theorems (`*_table_step_current`) rest on"""
+    name = "fields"
+
+    def cases(self, rng, tier):
+        n = 500 if tier == "quick" else 8000
+        g = ExprGen(rng, cse=0.15, floats=0.02)
+        seen = set()
+        for i in range(n):
+            e = g.gen(rng.choice(["num", "any", "bool", "int"]), rng.randint(1, 4))
+            for t in scan.subterms(e):
+                if isinstance(t, p.Expression):
+                    try:
+                        k = dumps(expr_to_sx(t))
+                    except Exception:
+                        continue
+                    if k not in seen and len(k) < 400:
+                        seen.add(k)
+                        yield {"expr": k}
+        x, y = p.Variable("x"), p.Variable("y")
+        special = [p.Slice((x,)), p.Slice((x, None, y)), p.Slice(()), p.Substitution(x + 1, ("x",), (y,)),
+                   p.Derivative(x * x, ("x", "y")), p.LeftShift(x, y), p.RightShift(x, 2),
+                   p.CallWithKwargs(x, (1,), {"b": 2, "a": y}), p.Call(x, ()), p.Power(x, y),
+                   p.Quotient(x, y), p.FloorDiv(x, y), p.Remainder(x, y), p.Comparison(x, "<", y),
+                   p.If(x, y, 1), p.Lookup(x, "a"), p.Subscript(x, y), p.NaN(), p.Wildcard(),
+                   p.DotWildcard("w"), p.StarWildcard("w"), p.FunctionSymbol(),
+                   p.CommonSubexpression(x, "pre", "scope"), p.CommonSubexpression(x),
+                   p.Min((x, y)), p.Max((x,)), p.BitwiseNot(x), p.LogicalNot(x),
+                   p.BitwiseOr((x, y)), p.BitwiseXor((x, y)), p.BitwiseAnd((x, y)),
+                   p.LogicalOr((x, y)), p.LogicalAnd((x, y)), p.Sum((x, y)), p.Product((x, y))]
+        for e in special:
+            yield {"expr": dumps(expr_to_sx(e))}
+
+    def request(self, pl):
+        return f"(c04fields {pl['expr']})"
+
+    def run_impl(self, pl):
+        import dataclasses
+        from collections.abc import Mapping
+        from extract.traversal import field_kind
+        e = sx_to_expr(loads(pl["expr"]))
+        out = []
+        for f in dataclasses.fields(e):
+            v = getattr(e, f.name)
+            kind = field_kind(type(e), f)
+            if kind == "one":
+                ch = [v]
+            elif kind == "many":
+                if not isinstance(v, tuple):
+                    return f"(err field-not-a-tuple {f.name})"
+                ch = list(v)
+            elif kind == "dict":
+                if not isinstance(v, Mapping):
+                    return f"(err field-not-a-mapping {f.name})"
+                ch = list(v.values())
+            else:
+                ch = []
+            out.append("(" + " ".join([q(f.name), kind] + [dumps(expr_to_sx(c)) for c in ch]) + ")")
+        return "(" + " ".join(out) + ")"
+
+    def nontrivial_key(self, pl, model, impl):
+        return pl["expr"]
+
+    def stats(self, pl, mo, io, acc):
+        k = loads(pl["expr"])[0]
+        acc[str(k)] = acc.get(str(k), 0) + 1
+
+
+class CallbackStream(Stream):
+    """`CallbackMapper(function, IdentityMapper())` with a `function` that logs its calls and
+    answers `mapper.fallback_mapper(expr, *args, **kwargs)`: which nodes reach `function`, in
+    which order, with which extra arguments — or which error ends the traversal"""
+    name = "callback"
+
+    def cases(self, rng, tier):
+        n = 700 if tier == "quick" else 12000
+        g = ExprGen(rng, cse=0.1, floats=0.02)
+        for i in range(n):
+            e = g.gen(rng.choice(["num", "any", "bool", "int"]), rng.randint(1, 4))
+            yield {"expr": dumps(expr_to_sx(e)), "args": bool(i % 2)}
+        x, y = p.Variable("x"), p.Variable("y")
+        special = [p.Wildcard(), p.DotWildcard("w"), p.StarWildcard("w"), p.NaN(), p.FunctionSymbol(),
+                   p.Min((x, y)), p.Max((x, y)), p.Slice((x,)), p.Derivative(x, ("x",)),
+                   p.Substitution(x, ("x",), (y,)), p.CallWithKwargs(x, (1,), {"a": y}),
+                   p.Call(x, (y, 1)), p.Sum((x, p.Min((y,)))), (x, [y, 1]), [x, (y,)],
+                   p.LeftShift(x, y), p.If(x, y, 1), p.CommonSubexpression(p.Sum((x, 0))),
+                   p.Lookup(p.Subscript(x, y), "a"), p.Comparison(x, "<", y), p.Power(x, 2),
+                   p.LogicalNot(x), p.BitwiseXor((x, y)), 3, True, 2.5, None]
+        for e in special:
+            for args in (False, True):
+                yield {"expr": dumps(expr_to_sx(e)), "args": args}
+
+    def request(self, pl):
+        return f"(c04callback {'true' if pl['args'] else 'false'} {pl['expr']})"
+
+    def _run(self, pl):
+        from pymbolic.mapper import CallbackMapper, IdentityMapper
+        e = sx_to_expr(loads(pl["expr"]))
+        log = []
+
+        def function(expr, mapper, *args, **kwargs):
+            log.append((expr, args == EXTRA_ARGS and kwargs == EXTRA_KW))
+            return mapper.fallback_mapper(expr, *args, **kwargs)
+        cb = CallbackMapper(function, IdentityMapper())
+        if pl["args"]:
+            cb(e, *EXTRA_ARGS, **EXTRA_KW)
+        else:
+            cb(e)
+        return e, log
+
+    def run_impl(self, pl):
+        try:
+            e, log = self._run(pl)
+        except RecursionError:
+            raise
+        except Exception as ex:
+            return err_sx(ex)
+        want = pl["args"]
+        return "(" + " ".join(
+            f"({dumps(expr_to_sx(n))} {'true' if (want and got) else 'false'})" for n, got in log) + ")"
+
+    def oracle(self, pl):
+        """extra arguments reach `function` unchanged at every node (the property's last clause)"""
+        try:
+            e, log = self._run(pl)
+        except Exception:
+            return None
+        if pl["args"] and not all(a for _n, a in log):
+            bad = next(type(n).__name__ for n, a in log if not a)
+            return Failure(f"callback-args-dropped:{bad}", "extra arguments not passed through", pl)
+        return None
+
+    def shrink(self, pl):
+        for s_ in sx_shrinks(loads(pl["expr"])):
+            yield {**pl, "expr": dumps(s_)}
+
+    def nontrivial_key(self, pl, model, impl):
+        return pl["expr"] + str(pl["args"])
+
+    def stats(self, pl, mo, io, acc):
+        acc["raised" if io.startswith("(err") else "traced"] = \
+            acc.get("raised" if io.startswith("(err") else "traced", 0) + 1
+
 # }}}
 
 
@@ -520,13 +666,23 @@ def probes():
     return res
 
 
+def extract(ctx=None):
+    """T-gen: the handler shapes of WalkMapper / IdentityMapper / CombineMapper, the node classes
+    and the SubstitutionMapper hooks, regenerated from the live source of the tree under test"""
+    from extract.traversal import extract_traversal
+    return extract_traversal(ctx)
+
+
 PROP = Prop(
     id="C04",
     title="Mapper dispatch and the stock traversals reach every node correctly",
     lean_targets=["PV.Properties.C04"],
-    streams=[WalkStream(), CombineStream(), DispatchStream(), NamesStream()],
+    extractors=[extract],
+    streams=[WalkStream(), CombineStream(), DispatchStream(), NamesStream(), FieldsStream(),
+             CallbackStream()],
     probes=[probes],
     trusted_base=["Lean 4.33 kernel; axioms propext, Classical.choice, Quot.sound only",
-                  "harness/props/c04.py (instrumented mapper subclasses, dynamic class hierarchies)"],
+                  "harness/props/c04.py (instrumented mapper subclasses, dynamic class hierarchies)",
+                  "extract/traversal.py (ast reader of the map_* handlers; unknown shapes are errors)"],
     design_ref="DESIGN.md §4 C04",
 )
